@@ -5,6 +5,7 @@ import (
 	"fmt"
 	goio "io"
 	"os"
+	"sort"
 
 	"github.com/evolbioinfo/goalign/align"
 	"github.com/evolbioinfo/goalign/io/fasta"
@@ -104,7 +105,7 @@ var mutationsCmd = &cobra.Command{
 					io.LogError(err)
 					return
 				}
-				for _, m := range muts.Mutations {
+				for _, m := range sortedMutations(muts, false) {
 					fmt.Fprintf(f, "%d\t%d\t%c\t%c\t%d\n", t.Id, m.AlignmentSite, m.ParentCharacter, m.ChildCharacter, m.NumEEM)
 				}
 			} else {
@@ -112,7 +113,7 @@ var mutationsCmd = &cobra.Command{
 					io.LogError(err)
 					return
 				}
-				for _, m := range muts.Mutations {
+				for _, m := range sortedMutations(muts, true) {
 					fmt.Fprintf(f, "%d\t%d\t%d\t%s\t%c\t%c\t%d\t%d\n", t.Id, m.AlignmentSite, m.BranchIndex, m.ChildNodeName, m.ParentCharacter, m.ChildCharacter, m.NumTips, m.NumTipsWithChildCharacter)
 				}
 			}
@@ -129,4 +130,28 @@ func init() {
 	mutationsCmd.PersistentFlags().BoolVar(&mutationseems, "eems", false, "If true, extracts mutations that goes to tips, with their number of emergence (see https://doi.org/10.1101/2021.06.30.450558)")
 	mutationsCmd.PersistentFlags().StringVarP(&intreefile, "input", "i", "stdin", "Input tree")
 	mutationsCmd.PersistentFlags().StringVarP(&outfile, "output", "o", "stdout", "Output file")
+}
+
+// sortedMutations lists the mutations by site, branch (when bybranch: an EEM is not attached
+// to one branch), parent and child character, so that the output does not depend on the
+// iteration order of the map.
+func sortedMutations(muts *mutations.MutationList, bybranch bool) []mutations.Mutation {
+	res := make([]mutations.Mutation, 0, len(muts.Mutations))
+	for _, m := range muts.Mutations {
+		res = append(res, m)
+	}
+	sort.Slice(res, func(i, j int) bool {
+		a, b := res[i], res[j]
+		if a.AlignmentSite != b.AlignmentSite {
+			return a.AlignmentSite < b.AlignmentSite
+		}
+		if bybranch && a.BranchIndex != b.BranchIndex {
+			return a.BranchIndex < b.BranchIndex
+		}
+		if a.ParentCharacter != b.ParentCharacter {
+			return a.ParentCharacter < b.ParentCharacter
+		}
+		return a.ChildCharacter < b.ChildCharacter
+	})
+	return res
 }
